@@ -272,3 +272,6 @@ def run(chk: Check):
     chk.floor("S3-ctx", 150)
     chk.floor("S4-location", 180)
     chk.floor("S5-span-nonempty", 150)
+    from .c12 import rule_source_verbatim
+    from ..pyflow import Index as _Ix
+    rule_source_verbatim(chk, _Ix())   # spans and error text refer to the caller's text
